@@ -341,19 +341,25 @@ def variant_of(rng, spec, labels, kinds=None):
                 continue
             return kind, _finish_variant(rng, spec, idx, labels, charge=ch)
         if kind == "sym":
-            # same labels, different group: Z2 <-> U1 on charges {0, 1}
-            other = {"Z2": "U1", "U1": "Z2"}.get(spec["sym"])
-            if other is None:
+            # same labels, different group: Z2 / U1 / Z4 on charges {0, 1},
+            # Z2Z2 / U1U1 on {0,1}x{0,1}
+            fam = [["Z2", "U1", "Z4"], ["Z2Z2", "U1U1"]]
+            mine = [f for f in fam if spec["sym"] in f]
+            if not mine:
                 continue
-            if any(untuple(c) not in (0, 1) for ix in idx for c, _ in ix["cm"]):
+            allowed = {"Z2": (0, 1), "U1": (0, 1), "Z4": (0, 1),
+                       "Z2Z2": ((0, 0), (0, 1), (1, 0), (1, 1)),
+                       "U1U1": ((0, 0), (0, 1), (1, 0), (1, 1))}[spec["sym"]]
+            if any(untuple(c) not in allowed for ix in idx for c, _ in ix["cm"]):
                 continue
             ch = untuple(spec["charge"])
-            if ch not in (0, 1):
+            if ch not in allowed:
                 continue
+            other = rng.choice([x for x in mine[0] if x != spec["sym"]])
             secs = [untuple(s) for s in spec["sectors"]]
             ok = valid_sectors(other, idx, ch)
             if any(s not in ok for s in secs):
-                # U1-valid sectors are Z2-valid but not conversely: keep common
+                # keep the sectors valid in both groups
                 secs = [s for s in secs if s in ok]
                 if not secs:
                     continue
